@@ -491,7 +491,7 @@ end hashthms
 
 namespace C20
 section coll
-variable {N : Type} [DecidableEq N]
+variable {N : Type} [DecidableEq N] [TyRel]
 
 omit [DecidableEq N] in
 theorem namePairs_append (l₁ : List (Obj N)) : ∀ (p : Nat) (l₂ : List (Obj N)),
@@ -639,7 +639,7 @@ end C20
 
 namespace C20
 section world
-variable {N : Type} [DecidableEq N]
+variable {N : Type} [DecidableEq N] [TyRel]
 
 /-- an in-place mutation through an identity that only one element carries changes that element -/
 theorem map_ite_eq_set {α : Type} (key : α → Nat) (f : α → α) (l : List α) (j : Nat) (c : α) (kv : Nat)
@@ -791,7 +791,7 @@ end C20
 
 namespace C20
 section refine
-variable {N : Type} [DecidableEq N]
+variable {N : Type} [DecidableEq N] [TyRel]
 
 omit [DecidableEq N] in
 theorem view_getElem? (w : World N) (j : Nat) :
@@ -884,8 +884,11 @@ theorem winv_newColl (w : World N) (hw : WInv w) (ty : Nat) : WInv (newColl w ty
 end refine
 end C20
 
+/-- the flat class hierarchy (no subclassing) used by the concrete examples -/
+def C20.flatTypes : TyRel := ⟨fun a b => a == b⟩
+
 section collthms
-variable {N : Type} [DecidableEq N]
+variable {N : Type} [DecidableEq N] [TyRel]
 
 /-- **invariant**: whatever sequence of `add` / `+=` / `pop` / `+` calls is made on whatever
 collections of the world, no two collections share their object list or name index, and the name
@@ -972,14 +975,6 @@ by constructor calls -/
 example : C20.WInv (newColl (newColl ({ next := 0, colls := [] } : World ℕ) 0) 0) :=
   C20.winv_newColl _ (C20.winv_newColl _ C20.winv_empty 0) 0
 
-/-- non-vacuity: a concrete history (two adds, `c0 + c0`, pop by name) on the executable model -/
-example :
-    let w := run (newColl (newColl ({ next := 0, colls := [] } : World ℕ) 0) 0)
-      [.addObj 0 ⟨1, 10, 0⟩, .addObj 0 ⟨2, 20, 0⟩, .plusColl 0 0, .popName 0 10]
-    view w = [(0, [⟨2, 20, 0⟩]), (0, []), (0, [⟨1, 10, 0⟩, ⟨2, 20, 0⟩, ⟨1, 10, 0⟩, ⟨2, 20, 0⟩])] ∧
-    w.colls.map nameList = [[20], [], [10, 20]] := by
-  decide
-
 /-- the mutation behind every form of `+`: one new collection is appended, nothing else changes
 (every existing collection keeps its objects, its index and its identities); the new collection
 holds the objects of the left operand followed by the added ones, has new identities and a
@@ -1006,7 +1001,7 @@ theorem c20_copy_extend_pure (w : World N) (hw : C20.WInv w) (j : Nat) (a : C N)
 
 /-- **`+` is pure**, `c_j + c_k` (two collections of the same object type) -/
 theorem c20_plus_pure (w : World N) (hw : C20.WInv w) (j k : Nat) (a b : C N)
-    (ha : w.colls[j]? = some a) (hb : w.colls[k]? = some b) (hty : b.ty = a.ty) :
+    (ha : w.colls[j]? = some a) (hb : w.colls[k]? = some b) (hty : TyRel.sub b.ty a.ty = true) :
     ∃ c : C N, step w (.plusColl j k) =
         ({ next := w.next + 2, colls := w.colls ++ [c] }, .ok (.coll w.colls.length)) ∧
       c.objects = a.objects ++ b.objects ∧ c.ty = a.ty ∧ c.oloc = w.next ∧ c.iloc = w.next + 1 ∧
@@ -1016,7 +1011,7 @@ theorem c20_plus_pure (w : World N) (hw : C20.WInv w) (j k : Nat) (a b : C N)
 
 /-- **`+` is pure**, `c_j + o` (an object of the collection's type) -/
 theorem c20_plus_obj_pure (w : World N) (hw : C20.WInv w) (j : Nat) (a : C N) (o : Obj N)
-    (ha : w.colls[j]? = some a) (hty : o.ty = a.ty) :
+    (ha : w.colls[j]? = some a) (hty : TyRel.sub o.ty a.ty = true) :
     ∃ c : C N, step w (.plusObj j o) =
         ({ next := w.next + 2, colls := w.colls ++ [c] }, .ok (.coll w.colls.length)) ∧
       c.objects = a.objects ++ [o] ∧ c.ty = a.ty ∧ c.oloc = w.next ∧ c.iloc = w.next + 1 ∧
@@ -1038,7 +1033,7 @@ theorem c20_plus_seq_pure (w : World N) (hw : C20.WInv w) (j : Nat) (a : C N) (o
 omit [DecidableEq N] in
 /-- what `checkSeq` accepts: a non-empty sequence of objects of the collection's type, unchanged -/
 theorem c20_checkSeq_ok (ty : Nat) (os xs : List (Obj N)) (h : checkSeq ty os = .ok xs) :
-    xs = os ∧ os ≠ [] ∧ ∀ o ∈ os, o.ty = ty := by
+    xs = os ∧ ∃ o₀ t, os = o₀ :: t ∧ (∀ o ∈ os, TyRel.sub o.ty o₀.ty = true) ∧ TyRel.sub o₀.ty ty = true := by
   cases os with
   | nil => simp [checkSeq] at h
   | cons o t =>
@@ -1046,22 +1041,305 @@ theorem c20_checkSeq_ok (ty : Nat) (os xs : List (Obj N)) (h : checkSeq ty os = 
     split at h
     · rename_i hc
       simp only [Except.ok.injEq] at h
-      refine ⟨h.symm, by simp, ?_⟩
+      refine ⟨h.symm, o, t, rfl, ?_, hc.2⟩
       intro x hx
       have hall := hc.1
       rw [List.all_eq_true] at hall
-      have := hall x hx
-      simp only [decide_eq_true_eq] at this
-      rw [this]; exact hc.2
+      exact hall x hx
     · cases h
-
-example : checkSeq (N := ℕ) 0 [⟨1, 10, 0⟩, ⟨2, 20, 0⟩] = .ok [⟨1, 10, 0⟩, ⟨2, 20, 0⟩] := by decide
 
 /-- when the argument checks of an operation fail (wrong type, empty sequence, unknown name, index
 out of range) the call raises and the world is exactly as before -/
 theorem c20_error_unchanged (w : World N) (op : Op N) (e : Err)
     (hp : plan (view w) (lookupIdx w) op = .error e) : step w op = (w, .error e) := by
   simp only [step, stepWith, hp]
+
+
+/-! #### targets, totality, positional access, `index`, constructor, reachable worlds -/
+
+/-- the collection numbers an operation refers to -/
+def C20.targets : Op N → List Nat
+  | .addObj j _ => [j] | .addColl j k => [j, k] | .addSeq j _ => [j] | .pop j _ => [j]
+  | .popName j _ => [j] | .popBad j => [j] | .plusObj j _ => [j] | .plusColl j k => [j, k] | .plusSeq j _ => [j]
+
+omit [DecidableEq N] [TyRel] in
+theorem C20.normIdx_lt (len : Nat) (i : Int) (p : Nat) (h : normIdx len i = some p) : p < len := by
+  unfold normIdx at h
+  simp only at h
+  split at h
+  · rename_i hc
+    simp only [Option.some.injEq] at h
+    omega
+  · cases h
+
+/-- **totality**: `badTarget` is an error of the model only — an operation on existing collections
+never produces it (it returns, or raises one of the Python exceptions). -/
+theorem c20_no_bad_target (w : World N) (op : Op N) (hv : ∀ j ∈ C20.targets op, j < w.colls.length) :
+    (step w op).2 ≠ .error .badTarget := by
+  have get : ∀ j, j < w.colls.length → ∃ c, w.colls[j]? = some c := fun j hj =>
+    ⟨w.colls[j], List.getElem?_eq_getElem hj⟩
+  cases op with
+  | addObj j o =>
+    obtain ⟨c, hc⟩ := get j (hv j (by simp [C20.targets]))
+    simp only [step, stepWith, plan, C20.view_getElem?, hc, Option.map_some, checkObj]
+    split <;> simp [Except.map, applyActWith, hc]
+  | addColl j k =>
+    obtain ⟨c, hc⟩ := get j (hv j (by simp [C20.targets]))
+    obtain ⟨d, hd⟩ := get k (hv k (by simp [C20.targets]))
+    simp only [step, stepWith, plan, C20.view_getElem?, hc, hd, Option.map_some]
+    split <;> simp [applyActWith, hc]
+  | addSeq j os =>
+    obtain ⟨c, hc⟩ := get j (hv j (by simp [C20.targets]))
+    simp only [step, stepWith, plan, C20.view_getElem?, hc, Option.map_some]
+    cases hck : checkSeq c.ty os <;> simp [Except.map, applyActWith, hc]
+  | pop j i =>
+    obtain ⟨c, hc⟩ := get j (hv j (by simp [C20.targets]))
+    simp only [step, stepWith, plan, C20.view_getElem?, hc, Option.map_some]
+    cases hn : normIdx c.objects.length (i.getD ((c.objects.length : Int) - 1)) with
+    | none => simp
+    | some p =>
+      have hp := C20.normIdx_lt _ _ _ hn
+      simp [applyActWith, hc, List.getElem?_eq_getElem hp]
+  | popName j n =>
+    obtain ⟨c, hc⟩ := get j (hv j (by simp [C20.targets]))
+    simp only [step, stepWith, plan, C20.view_getElem?, hc, Option.map_some]
+    cases hl : lookupIdx w j n with
+    | none => simp
+    | some p =>
+      by_cases hp : p < c.objects.length
+      · simp [hp, applyActWith, hc, List.getElem?_eq_getElem hp]
+      · simp [hp]
+  | popBad j =>
+    obtain ⟨c, hc⟩ := get j (hv j (by simp [C20.targets]))
+    simp [step, stepWith, plan, C20.view_getElem?, hc]
+  | plusObj j o =>
+    obtain ⟨c, hc⟩ := get j (hv j (by simp [C20.targets]))
+    simp only [step, stepWith, plan, C20.view_getElem?, hc, Option.map_some, checkObj]
+    split <;> simp [Except.map, applyActWith, hc]
+  | plusColl j k =>
+    obtain ⟨c, hc⟩ := get j (hv j (by simp [C20.targets]))
+    obtain ⟨d, hd⟩ := get k (hv k (by simp [C20.targets]))
+    simp only [step, stepWith, plan, C20.view_getElem?, hc, hd, Option.map_some]
+    split <;> simp [applyActWith, hc]
+  | plusSeq j os =>
+    obtain ⟨c, hc⟩ := get j (hv j (by simp [C20.targets]))
+    simp only [step, stepWith, plan, C20.view_getElem?, hc, Option.map_some]
+    cases hck : checkSeq c.ty os <;> simp [Except.map, applyActWith, hc]
+
+omit [DecidableEq N] [TyRel] in
+/-- **positional access** `c[i]`: position `p` is reached by `p` and by `p - len(c)`; indices outside
+`-len(c) ≤ i < len(c)` raise `IndexError`. -/
+theorem c20_getitem_idx (c : C N) :
+    (∀ (p : Nat) (o : Obj N), c.objects[p]? = some o →
+        getItemIdx c (p : Int) = .ok o ∧ getItemIdx c ((p : Int) - c.objects.length) = .ok o) ∧
+    (∀ i : Int, (i < -(c.objects.length : Int) ∨ (c.objects.length : Int) ≤ i) →
+        getItemIdx c i = .error .indexError) := by
+  constructor
+  · intro p o hp
+    have hlt : p < c.objects.length := (List.getElem?_eq_some_iff.mp hp).1
+    have h1 : normIdx c.objects.length (p : Int) = some p := by
+      unfold normIdx
+      have : ¬ ((p : Int) < 0) := by omega
+      simp only [this, if_false]
+      have : (0 : Int) ≤ p ∧ (p : Int) < c.objects.length := by omega
+      simp [this]
+    have h2 : normIdx c.objects.length ((p : Int) - c.objects.length) = some p := by
+      unfold normIdx
+      have : ((p : Int) - c.objects.length < 0) := by omega
+      simp only [this, if_true]
+      have h3 : (p : Int) - c.objects.length + c.objects.length = p := by omega
+      rw [h3]
+      have : (0 : Int) ≤ p ∧ (p : Int) < c.objects.length := by omega
+      simp [this]
+    simp [getItemIdx, h1, h2, hp]
+  · intro i hi
+    have : normIdx c.objects.length i = none := by
+      unfold normIdx
+      simp only
+      split
+      · rename_i hc; split at hc <;> omega
+      · rfl
+    simp [getItemIdx, this]
+
+/-- **`c[key]`** dispatches on the kind of key; with distinct names the object at position `p` is
+reached by its name, by `p` and by `p - len(c)` alike -/
+theorem c20_getitem_consistent (c : C N) (hc : c.idx = createIdx c.objects 0)
+    (hn : (c.objects.map (·.name)).Nodup) (p : Nat) (o : Obj N) (hp : c.objects[p]? = some o) :
+    getItem c (.name o.name) = .ok o ∧ getItem c (.idx p) = .ok o ∧
+    getItem c (.idx ((p : Int) - c.objects.length)) = .ok o :=
+  ⟨((c20_coherent_accessors c hc).2.2 hn).2 p o hp |>.2, ((c20_getitem_idx c).1 p o hp).1,
+    ((c20_getitem_idx c).1 p o hp).2⟩
+
+omit [DecidableEq N] [TyRel] in
+/-- **`c.index(obj)`** is the first position holding the object; `ValueError` iff it is not stored -/
+theorem c20_indexOf (c : C N) (o : Obj N) :
+    (∀ i, indexOf c o = .ok i → ∃ x, c.objects[i]? = some x ∧ x.id = o.id ∧
+        ∀ j x', j < i → c.objects[j]? = some x' → x'.id ≠ o.id) ∧
+    (indexOf c o = .error .valueError ↔ ∀ x ∈ c.objects, x.id ≠ o.id) := by
+  constructor
+  · intro i h
+    unfold indexOf at h
+    cases hf : c.objects.findIdx? (fun x => x.id == o.id) with
+    | none => rw [hf] at h; cases h
+    | some k =>
+      rw [hf] at h
+      have hk : k = i := by simpa using h
+      subst hk
+      obtain ⟨hlt, hp, hfirst⟩ := List.findIdx?_eq_some_iff_getElem.mp hf
+      refine ⟨c.objects[k], List.getElem?_eq_getElem hlt, by simpa using hp, ?_⟩
+      intro j x' hj hx'
+      have hjl : j < c.objects.length := Nat.lt_trans hj hlt
+      have := hfirst j hj
+      rw [List.getElem?_eq_getElem hjl] at hx'
+      have hx : c.objects[j] = x' := by simpa using hx'
+      rw [hx] at this
+      simpa using this
+  · unfold indexOf
+    cases hf : c.objects.findIdx? (fun x => x.id == o.id) with
+    | none =>
+      simp only [true_iff]
+      intro x hx
+      have := List.findIdx?_eq_none_iff.mp hf x hx
+      simpa using this
+    | some k =>
+      simp only [reduceCtorEq, false_iff]
+      intro hall
+      obtain ⟨hlt, hp, _⟩ := List.findIdx?_eq_some_iff_getElem.mp hf
+      exact hall _ (List.getElem_mem hlt) (by simpa using hp)
+
+/-- `for obj in objs: self.add(obj)`: the invariant is kept, the objects arrive in order, each is
+an instance of the collection's type -/
+theorem C20.addEach_spec (os : List (Obj N)) : ∀ (w w' : World N) (j : Nat) (c : C N), C20.WInv w →
+    w.colls[j]? = some c → addEach w j os = .ok w' →
+    C20.WInv w' ∧ view w' = (view w).set j (c.ty, c.objects ++ os) ∧
+      ∀ o ∈ os, TyRel.sub o.ty c.ty = true := by
+  induction os with
+  | nil =>
+    intro w w' j c hw hc h
+    simp only [addEach, Except.ok.injEq] at h
+    subst h
+    refine ⟨hw, ?_, by simp⟩
+    have : (view w)[j]? = some (c.ty, c.objects) := by rw [C20.view_getElem?, hc]; rfl
+    rw [List.append_nil]
+    exact (List.set_getElem?_self this).symm
+  | cons o t ih =>
+    intro w w' j c hw hc h
+    have hr := C20.step_refines w hw (.addObj j o)
+    simp only [addEach] at h
+    by_cases hs : TyRel.sub o.ty c.ty = true
+    · have hspec : specStep (view w) (.addObj j o) = ((view w).set j (c.ty, c.objects ++ [o]), .ok .unit) := by
+        have hv : (view w)[j]? = some (c.ty, c.objects) := by rw [C20.view_getElem?, hc]; rfl
+        simp [specStep, plan, hv, checkObj, hs, Except.map, specApply]
+      have h1 : (step w (.addObj j o)).2 = .ok .unit := by rw [hr.2.1, hspec]
+      have hview : view (step w (.addObj j o)).1 = (view w).set j (c.ty, c.objects ++ [o]) := by
+        rw [hr.1, hspec]
+      have hlt : j < w.colls.length := (List.getElem?_eq_some_iff.mp hc).1
+      obtain ⟨c1, hc1⟩ : ∃ c1, (step w (.addObj j o)).1.colls[j]? = some c1 := by
+        have hl : j < (view (step w (.addObj j o)).1).length := by rw [hview]; simp [view, hlt]
+        have hl' : j < (step w (.addObj j o)).1.colls.length := by simpa [view] using hl
+        exact ⟨_, List.getElem?_eq_getElem hl'⟩
+      have hc1v : (c1.ty, c1.objects) = (c.ty, c.objects ++ [o]) := by
+        have h2 : (view (step w (.addObj j o)).1)[j]? = some (c1.ty, c1.objects) := by
+          rw [C20.view_getElem?, hc1]; rfl
+        rw [hview, List.getElem?_set_self (by simp [view, hlt])] at h2
+        exact (Option.some.inj h2).symm
+      have hstep : stepWith copyOf w (.addObj j o) = ((step w (.addObj j o)).1, .ok .unit) := by
+        show step w (.addObj j o) = _
+        rw [← h1]
+      rw [hstep] at h
+      obtain ⟨hw', hv', hsub⟩ := ih _ w' j c1 hr.2.2 hc1 h
+      have e1 : c1.ty = c.ty := (Prod.mk.inj hc1v).1
+      have e2 : c1.objects = c.objects ++ [o] := (Prod.mk.inj hc1v).2
+      refine ⟨hw', ?_, ?_⟩
+      · rw [hv', hview, List.set_set, e1, e2, List.append_assoc]; rfl
+      · intro x hx
+        rcases List.mem_cons.mp hx with rfl | hx
+        · exact hs
+        · rw [← e1]; exact hsub x hx
+    · exfalso
+      have hv : (view w)[j]? = some (c.ty, c.objects) := by rw [C20.view_getElem?, hc]; rfl
+      have hplan : plan (view w) (lookupIdx w) (.addObj j o) = .error .typeError := by
+        simp [plan, hv, checkObj, hs, Except.map]
+      have : stepWith copyOf w (.addObj j o) = (w, .error .typeError) := by
+        simp only [stepWith, hplan]
+      rw [this] at h
+      cases h
+
+/-- **constructor**: a successful `NamedObjectCollection(objs, obj_type)` yields a world that
+satisfies the invariant again; the new collection has the settled type, which has a `name`
+attribute, and holds exactly the given objects in order, each an instance of that type. -/
+theorem c20_ctor_inv (hasName : Nat → Bool) (w w' : World N) (ty : Option Nat) (arg : CtorArg N)
+    (hw : C20.WInv w) (h : mkNamed hasName w ty arg = .ok w') :
+    C20.WInv w' ∧ ∃ t, ctorType ty arg = some t ∧ hasName t = true ∧
+      view w' = view w ++ [(t, ctorObjs arg)] ∧ ∀ o ∈ ctorObjs arg, TyRel.sub o.ty t = true := by
+  unfold mkNamed at h
+  cases ht : ctorType ty arg with
+  | none => rw [ht] at h; cases h
+  | some t =>
+    rw [ht] at h
+    simp only at h
+    cases ha : addEach (newColl w t) w.colls.length (ctorObjs arg) with
+    | error e => rw [ha] at h; cases h
+    | ok w1 =>
+      rw [ha] at h
+      simp only at h
+      split at h
+      · rename_i hn
+        simp only [Except.ok.injEq] at h
+        subst h
+        have hget : (newColl w t).colls[w.colls.length]? =
+            some { oloc := w.next, iloc := w.next + 1, ty := t, objects := [], idx := [] } := by
+          simp [newColl]
+        obtain ⟨hw1, hv1, hs1⟩ := C20.addEach_spec (ctorObjs arg) (newColl w t) w1 w.colls.length _
+          (C20.winv_newColl w hw t) hget ha
+        refine ⟨hw1, t, rfl, hn, ?_, hs1⟩
+        rw [hv1]
+        simp [view, newColl]
+      · cases h
+
+/-- the worlds a program can build: constructor calls and operations, starting from nothing -/
+inductive C20.Reachable (hasName : Nat → Bool) : World N → Prop
+  | empty : C20.Reachable hasName { next := 0, colls := [] }
+  | newColl (w : World N) (ty : Nat) : C20.Reachable hasName w → C20.Reachable hasName (newColl w ty)
+  | ctor (w w' : World N) (ty : Option Nat) (arg : CtorArg N) : C20.Reachable hasName w →
+      mkNamed hasName w ty arg = .ok w' → C20.Reachable hasName w'
+  | step (w : World N) (op : Op N) : C20.Reachable hasName w → C20.Reachable hasName (step w op).1
+
+/-- the invariant is not an assumption: every reachable world satisfies it -/
+theorem c20_reachable_inv (hasName : Nat → Bool) (w : World N) (h : C20.Reachable hasName w) : C20.WInv w := by
+  induction h with
+  | empty => exact C20.winv_empty
+  | newColl w ty _ ih => exact C20.winv_newColl w ih ty
+  | ctor w w' ty arg _ hm ih => exact (c20_ctor_inv hasName w w' ty arg ih hm).1
+  | step w op _ ih => exact (C20.step_refines w ih op).2.2
+
+/-- **lookup by name = position, without hypotheses on the world**: in every world a program can
+build, every collection with distinct names has `name_list` = names in positional order, and the
+name of the object at position `i` leads to `i` and to that object. -/
+theorem c20_reachable_index_coherent (hasName : Nat → Bool) (w : World N) (h : C20.Reachable hasName w)
+    (j : Nat) (c : C N) (hj : w.colls[j]? = some c) (hn : (c.objects.map (·.name)).Nodup) :
+    nameList c = c.objects.map (·.name) ∧
+    ∀ i o, c.objects[i]? = some o → getIndexByName c o.name = .ok i ∧ getItem c (.name o.name) = .ok o ∧
+      getItem c (.idx i) = .ok o := by
+  have hc := (c20_reachable_inv hasName w h).coh j c hj
+  have ha := (c20_coherent_accessors c hc).2.2 hn
+  refine ⟨ha.1, fun i o hi => ⟨(ha.2 i o hi).1, (ha.2 i o hi).2, ((c20_getitem_idx c).1 i o hi).1⟩⟩
+
+end collthms
+
+/-! concrete instances (flat class hierarchy) -/
+section concrete
+attribute [local instance] C20.flatTypes
+
+/-- non-vacuity: a concrete history (two adds, `c0 + c0`, pop by name) on the executable model -/
+example :
+    let w := run (newColl (newColl ({ next := 0, colls := [] } : World ℕ) 0) 0)
+      [.addObj 0 ⟨1, 10, 0⟩, .addObj 0 ⟨2, 20, 0⟩, .plusColl 0 0, .popName 0 10]
+    view w = [(0, [⟨2, 20, 0⟩]), (0, []), (0, [⟨1, 10, 0⟩, ⟨2, 20, 0⟩, ⟨1, 10, 0⟩, ⟨2, 20, 0⟩])] ∧
+    w.colls.map nameList = [[20], [], [10, 20]] := by
+  decide
+
+example : checkSeq (N := ℕ) 0 [⟨1, 10, 0⟩, ⟨2, 20, 0⟩] = .ok [⟨1, 10, 0⟩, ⟨2, 20, 0⟩] := by decide
 
 example : plan (N := ℕ) [(0, [])] (fun _ _ => none) (.plusSeq 0 []) = .error .typeError := rfl
 
@@ -1094,7 +1372,7 @@ example :
     getIndexByName c 10 = .ok 2 ∧ nameList c = [10, 20] ∧ getItemName c 10 = .ok ⟨3, 10, 0⟩ := by
   decide
 
-end collthms
+end concrete
 
 /-! ### configurations: separate instances never share mutable state -/
 
